@@ -262,8 +262,30 @@ Definition c13_run (w : list Z) : list Z :=
    reported: Clamp with lo > hi (the shipped code returns lo for num <= lo and
    hi otherwise), and the mean of an empty slice (the shipped code panics:
    integer division by zero). *)
+(* N on a text that is NOT the decimal text NumToString writes for a value of the type
+   (a malformed or out-of-range text, a '+' sign, leading zeros, "-0") is outside the
+   property: C13 speaks about Range, which only ever hands N what NumToString wrote.  There
+   every well-formed observation is accepted, so that an N that reads more texts (or fewer)
+   than strconv does is not reported. *)
+Definition canonical_text (signed : bool) (w : Z) (s : list Z) : bool :=
+  match (if signed then parse_int w s else parse_uint w s) with
+  | Some v => zlist_eqb (num_to_string v) s
+  | None => false
+  end.
+Definition n_in_domain (fn : Z) (a : list Z) : bool :=
+  match rd_zs a with
+  | Some (s, []) =>
+      if fn =? 73 then canonical_text true 64 s
+      else if fn =? 74 then canonical_text true 8 s
+      else if fn =? 75 then canonical_text false 8 s
+      else canonical_text false 64 s
+  | _ => true
+  end.
+
 Definition c13_agree (w obs : list Z) : bool :=
   match w, obs with
+  | 73 :: a, _ :: _ | 74 :: a, _ :: _ | 75 :: a, _ :: _ | 77 :: a, _ :: _ =>
+      if n_in_domain (hd 0 w) a then zlist_eqb obs (c13_run w) else true
   | [23; n; lo; hi], [_] => if hi <? lo then true else zlist_eqb obs (c13_run w)
   | [32; lo; hi], _ :: _ => if hi <? lo then true else zlist_eqb obs (c13_run w)
   | [20; 0], _ :: _ | [31; 0], _ :: _ => true
